@@ -7,6 +7,16 @@ TRUSTED_COMMON = [
 ]
 
 PROPS = {
+    "C08": {
+        "title": "No network input can crash a node or alter its committed history",
+        "design_ref": "DESIGN.md §3 C08",
+        "technique": "Lean 4 totality proofs over a model of the validation layer with Go's partial operations explicit + differential correspondence of outcome classes + hostile-message harness on real Node objects",
+        "level_text": "PARTIAL proof (Lean 4): in the model of the validation layer (hex / signature / public-key decoding, signature verification of internal transactions, events and blocks, sync-limit arithmetic; slicing and nil dereference explicit as a panic outcome) no input whatsoever reaches a panic (decode_total, signature_total, itx_verify_total, verify_total, sync_limit_total). The model is tied to the code by comparing the outcome class ok|err|panic on a hostile value grammar. Not modelled (runtime): encoding/json, transport framing, goroutines, locks; covered by the harness: hostile Sync/EagerSync/Join/FastForward requests through Node.processRPC, hostile sync and fast-forward responses through core, each followed by a valid exchange and a comparison of delivered blocks.",
+        "level_note": "Trusted: Lean kernel; decode model tied by correspondence; cryptographic validity and curve membership are input bits from the real code.",
+        "trusted_base": ["decode model Babble.Decode tied to common.DecodeFromString / keys.DecodeSignature / keys.ToPublicKey / keys.Verify / InternalTransaction.Verify / processSyncRequest by outcome-class correspondence",
+                         "encoding/json, net/rpc framing, goroutine scheduling and locking are exercised by the harness, not modelled"],
+        "assumptions": ["hex.DecodeString, big.Int.SetString, elliptic.Unmarshal and ecdsa.Verify do not panic on non-nil arguments"],
+    },
     "C16": {
         "title": "Store fidelity",
         "design_ref": "DESIGN.md §3 C16",
